@@ -24,8 +24,15 @@ type protoDescV struct{ st *types.Named }
 type protoFieldsV struct{ st *types.Named }
 type protoOneofsV struct{ st *types.Named }
 type protoFieldV struct {
-	st  *types.Named
-	idx int
+	st     *types.Named
+	idx    int
+	holder *value // set for the member of a populated oneof: the wrapper struct cell
+}
+
+// protoValueV is a protoreflect.Value holding a message member.
+type protoValueV struct {
+	v value
+	t types.Type
 }
 type protoOneofV struct {
 	st  *types.Named
@@ -41,11 +48,30 @@ var (
 	pmOneofsT = &fakeType{name: "gosmt.protoOneofDescriptors", methods: map[string]bool{"ByName": true, "Len": true, "Get": true}}
 	pmFieldT  = &fakeType{name: "gosmt.protoFieldDescriptor", methods: map[string]bool{"Kind": true, "IsList": true, "Name": true, "JSONName": true}}
 	pmOneofT  = &fakeType{name: "gosmt.protoOneofDescriptor", methods: map[string]bool{"Name": true}}
+	pmValueT  = &fakeType{name: "gosmt.protoValue", methods: map[string]bool{"Message": true}}
 )
+
+// protoreflect.Value is a struct in the real library, so its methods are static calls: the model's Get returns a
+// protoValueV and Message unpacks it.
+func init() {
+	reg("(google.golang.org/protobuf/reflect/protoreflect.Value).Message", func(ex *Exec, fr *frame, pos token.Pos, args []value) value {
+		it, ok := args[0].(iface)
+		if !ok || it.t != pmValueT {
+			panic(ex.unsupported("protoreflect Value.Message on a value the model did not produce"))
+		}
+		pv := it.v.(protoValueV)
+		st := protoStructOf(pv.t)
+		p, _ := pv.v.(*value)
+		if st == nil {
+			panic(ex.unsupported("protoreflect Value.Message on a non-message member"))
+		}
+		return iface{pmMsgT, protoMsgV{ptr: p, st: st}}
+	})
+}
 
 // fake proto types implement every interface asked of them (the real ones are large interfaces).
 func init() {
-	for _, ft := range []*fakeType{pmMsgT, pmDescT, pmFieldsT, pmOneofsT, pmFieldT, pmOneofT} {
+	for _, ft := range []*fakeType{pmMsgT, pmDescT, pmFieldsT, pmOneofsT, pmFieldT, pmOneofT, pmValueT} {
 		ft.anyIface = true
 	}
 }
@@ -184,7 +210,34 @@ func (ex *Exec) protoMethod(recv iface, name string) *modelClosure {
 				if it, ok := fv.(iface); ok && it.t == nil {
 					return iface{}
 				}
-				panic(ex.unsupported("protoreflect WhichOneof on a populated oneof (message content is not modelled)"))
+				// a populated oneof holds a pointer to a generated wrapper struct with one field, whose tag names the member
+				if it, ok := fv.(iface); ok {
+					if w := protoStructOf(it.t); w != nil && len(protoFieldsOf(w)) == 1 {
+						if wp, ok := it.v.(*value); ok && wp != nil {
+							return iface{pmFieldT, protoFieldV{st: w, idx: 0, holder: wp}}
+						}
+						return iface{} // a typed nil wrapper: not set
+					}
+				}
+				panic(ex.unsupported("protoreflect WhichOneof on a populated oneof of an unexpected shape"))
+			})
+		case "Get":
+			return mk(func(ex *Exec, fr *frame, pos token.Pos, args []value) value {
+				fd, ok := args[1].(iface)
+				if !ok || fd.t != pmFieldT {
+					panic(ex.unsupported("protoreflect Get with a non-model field descriptor"))
+				}
+				f := fd.v.(protoFieldV)
+				if f.holder == nil {
+					panic(ex.unsupported("protoreflect Get of an ordinary field (message content is not modelled)"))
+				}
+				// the member of a oneof: the single field of the wrapper struct
+				wst := f.st.Underlying().(*types.Struct)
+				return iface{pmValueT, protoValueV{v: (*f.holder).(structure)[0], t: wst.Field(0).Type()}}
+			})
+		case "Interface":
+			return mk(func(ex *Exec, fr *frame, pos token.Pos, args []value) value {
+				return iface{types.NewPointer(m.st), m.ptr}
 			})
 		}
 	case pmDescT:
@@ -218,7 +271,7 @@ func (ex *Exec) protoMethod(recv iface, name string) *modelClosure {
 				want := ex.wantConcrete(args[1], "protoreflect Fields().ByName")
 				for i, fi := range protoFieldsOf(d.st) {
 					if fi.kind >= 0 && fi.name == want {
-						return iface{pmFieldT, protoFieldV{d.st, i}}
+						return iface{pmFieldT, protoFieldV{st: d.st, idx: i}}
 					}
 				}
 				// members of a oneof are fields of the message too, declared on wrapper types: not modelled
@@ -264,6 +317,18 @@ func (ex *Exec) protoMethod(recv iface, name string) *modelClosure {
 			return mk(func(ex *Exec, fr *frame, pos token.Pos, args []value) value { return ex.b.Bool(fi.list) })
 		case "Name":
 			return mk(func(ex *Exec, fr *frame, pos token.Pos, args []value) value { return ex.strConst(fi.name) })
+		}
+	case pmValueT:
+		pv := recv.v.(protoValueV)
+		if name == "Message" {
+			return mk(func(ex *Exec, fr *frame, pos token.Pos, args []value) value {
+				st := protoStructOf(pv.t)
+				p, _ := pv.v.(*value)
+				if st == nil {
+					panic(ex.unsupported("protoreflect Value.Message on a non-message member"))
+				}
+				return iface{pmMsgT, protoMsgV{ptr: p, st: st}}
+			})
 		}
 	case pmOneofT:
 		o := recv.v.(protoOneofV)
